@@ -156,6 +156,23 @@ def install(R):
                               patterns=[f(c)]), requested=False)
             E.used_lemmas.add("sum_nonneg")
             return NdArr.from_fn("colsum", (a.shape[1],), "real", lambda col: f(col))
+        if a.ndim == 2 and axis is None and a.cell.nan is None:
+            if isinstance(a.shape[0], int) and a.shape[0] == 1:
+                return sum1(E, np_getitem(R, E, a, (0, slice(None, None, None)), None))       # a single row
+            fs = a.snapshot()
+            if isinstance(a.shape[0], int) and isinstance(a.shape[1], int):
+                cells = [fs.get(i_, c_) for i_ in range(a.shape[0]) for c_ in range(a.shape[1])]
+                cells = [z3.ToReal(v_) if z3.is_int(v_) else (z3.If(v_, z3.RealVal(1), z3.RealVal(0)) if z3.is_bool(v_) else v_) for v_ in cells]
+                return z3.simplify(z3.Sum(cells)) if cells else z3.RealVal(0)
+            # the total of a matrix: one ghost number per reduction; only its sign lemma is instantiated
+            tot = E.real("total")
+            i, c = z3.Int(fresh_name("ti")), z3.Int(fresh_name("tc"))
+            val = fs.get(i, c)
+            val = z3.ToReal(val) if z3.is_int(val) else (z3.If(val, z3.RealVal(1), z3.RealVal(0)) if z3.is_bool(val) else val)
+            inb = z3.And(i >= 0, i < z(a.shape[0]), c >= 0, c < z(a.shape[1]))
+            E.axiom(z3.Implies(z3.ForAll([i, c], z3.Implies(inb, val >= 0)), tot >= 0), requested=False)
+            E.used_lemmas.add("sum_nonneg")
+            return tot
         raise Unsupported("numpy.sum rank %d axis %r" % (a.ndim, axis))
     R.np_sum = np_sum
 
